@@ -22,7 +22,10 @@ static void lwe_cases(int K) {
             lweSymEncrypt(c, mu, alpha, sk);
             Torus32 d = lweSymDecrypt(c, sk, M);
             if (d != mu) { violation(key, fmt("LWE n=%d Msize=%d alpha=%.3g: message %d (0x%08x) decrypts to 0x%08x", n, M, alpha, m, (uint32_t)mu, (uint32_t)d)); break; }
-            eval(1); if (alpha > 0 && m) nontrivial(1);
+            // the sibling that takes its noise from the caller (used by key generation): noise +-(1/4M) is inside the decryptable range, and the phase is message + noise exactly
+            { double ext = ((m & 1) ? 1.0 : -1.0) / (4.0 * M); lweSymEncryptWithExternalNoise(c, mu, ext, alpha, sk); Torus32 d2 = lweSymDecrypt(c, sk, M); Torus32 ph = lwePhase(c, sk);
+              if (d2 != mu || ph != (Torus32)((uint32_t)mu + (uint32_t)dtot32(ext))) { violation(key, fmt("lweSymEncryptWithExternalNoise n=%d Msize=%d: message %d with caller noise %.3g: phase 0x%08x, decrypts to 0x%08x, message 0x%08x", n, M, m, ext, (uint32_t)ph, (uint32_t)d2, (uint32_t)mu)); break; } }
+            eval(2); if (alpha > 0 && m) nontrivial(1);
         }
         outcome(mix(fnv(c->a, n * 4 > 16 ? 16 : n * 4), M));
         delete_LweSample(c); delete_LweKey(sk); delete_LweParams(p);
